@@ -237,6 +237,7 @@ func runC01(e *Env) {
 		return
 	}
 	p := m.p
+	checkPolicyReadOnly(e, p, "E1.readonly")
 	checkGroupOrder(e, m)
 	checkNumOrigin(e, m)
 	checkRetContract(e, m, "E1.retc")
@@ -407,6 +408,25 @@ func (c *wctx) noMatchReach() map[*emit.WNode]bool {
 // checkGroupOrder (E1.order): fragments are appended in policy order; names in list order.
 func checkGroupOrder(e *Env, m *e1Model) {
 	r := e.R
+	checkGroupUnit(e, m, "E1.order", "Policy.Assemble/groups-in-policy-order",
+		"groups are compiled by a range loop over p.Syscalls and each fragment is appended at the end of the accumulator: policy order",
+		"the compiled group is not the element of a range over p.Syscalls (the first matching group in policy order would not decide)")
+	for _, name := range m.variants() {
+		pe := m.evals[name]
+		nStar := 0
+		for _, it := range pe.Items {
+			if it.Kind == "star" {
+				nStar++
+			}
+		}
+		r.Check(nStar == 1, "E1.order", "Policy.Assemble/one-fragment-loop/"+name, "", "exactly one loop contributes group fragments to the program", fmt.Sprintf("%d fragment loops found", nStar))
+	}
+	checkGroupOrderRest(e, m)
+}
+
+// checkGroupUnit: the group that is validated and compiled is an element of a range over the policy's own p.Syscalls.
+func checkGroupUnit(e *Env, m *e1Model, rule, key, okd, badd string) {
+	r := e.R
 	p := m.p
 	res := origin.NewResolver()
 	// Policy.Assemble: the star item's call receives the element p.Syscalls[i] of a range loop
@@ -425,20 +445,14 @@ func checkGroupOrder(e *Env, m *e1Model) {
 				}
 			}
 		}
-		r.Check(good, "E1.order", "Policy.Assemble/groups-in-policy-order", p.Pos(c.Pos()),
-			"groups are compiled by a range loop over p.Syscalls and each fragment is appended at the end of the accumulator: policy order",
-			"the compiled group is not the element of a range over p.Syscalls (the first matching group in policy order would not decide)")
+		r.Check(good, rule, key, p.Pos(c.Pos()), okd, badd)
 	}
-	for _, name := range m.variants() {
-		pe := m.evals[name]
-		nStar := 0
-		for _, it := range pe.Items {
-			if it.Kind == "star" {
-				nStar++
-			}
-		}
-		r.Check(nStar == 1, "E1.order", "Policy.Assemble/one-fragment-loop/"+name, "", "exactly one loop contributes group fragments to the program", fmt.Sprintf("%d fragment loops found", nStar))
-	}
+}
+
+func checkGroupOrderRest(e *Env, m *e1Model) {
+	r := e.R
+	p := m.p
+	res := origin.NewResolver()
 	// SyscallGroup.Assemble: entries are emitted by a range over the list returned by toSyscallsWithConditions
 	ts := p.Func(load.PkgRoot, "SyscallGroup.toSyscallsWithConditions")
 	if ts == nil {
